@@ -59,6 +59,8 @@ pub fn op_alphabet() -> Vec<Op> {
         Op::Prefix("-", "A"),
         Op::Prefix("-", "B"),
         Op::Prefix("+++", "A"),
+        // a prefix operator under the symbol of a built-in postfix operator: both stay
+        Op::Prefix("++", "A"),
         Op::Infix("hi", 111, true, "A"),
         Op::Infix("hi", 111, false, "B"),
         Op::Infix("hi", 125, true, "C"),
@@ -180,6 +182,8 @@ const PROBES: &[&str] = &[
     "- 1",
     "1 - - 1",
     "+++ 1",
+    "++ 1",
+    "++ 1 ++",
     "++ + 1",
     "1 hi 2",
     "1 + 2 hi 3",
